@@ -82,12 +82,14 @@ TotalLess(a, b) ==
                  ELSE LET i == CHOOSE i \in d : \A j \in d : i <= j IN TotalLess(a.v[i], b.v[i])
 
 (* ---------------- filter operators (language reference: "Filter operators") ---------------- *)
-\* ordering comparisons are only typed for Int / Float / String operands of equal base type
+\* ordering comparisons are typed for Int / Float / String operands of equal base type and for lists of those
+\* (lexicographic: the order of field values themselves, Type::is_orderable)
 OrdLess(a, b) ==
   IF IsNull(a) \/ IsNull(b) THEN FALSE
   ELSE CASE a.k = "int"   -> NumLess(a, b)
          [] a.k = "float" -> a.v < b.v
          [] a.k = "str"   -> SeqLess(a.v, b.v)
+         [] a.k = "list"  -> TotalLess(a, b)
 OrdLeq(a, b) == OrdLess(a, b) \/ (~IsNull(a) /\ ~IsNull(b) /\ ValueEq(a, b))
 
 IsPrefixOf(p, s) == Len(p) <= Len(s) /\ SubSeq(s, 1, Len(p)) = p
